@@ -1,8 +1,11 @@
 package main
 
 import (
+	"cmp"
 	"fmt"
+	"math"
 	"sort"
+	"strconv"
 	"strings"
 
 	"github.com/creachadair/mds/omap"
@@ -15,29 +18,46 @@ import (
 // whose map has been edited since it was positioned is stale: the harness (like the model)
 // refuses to move or read it, only `itseek` revives it.
 //
-//	reset nat|rev|div10
+//	reset nat|rev|div10|flt      (flt: omap.Map[float64,int] from omap.New; the key tokens stand for float keys, see c04fltEnc)
 //	mk <m> new|zero | copy <d> <s>
 //	setn <m> <k0>,<step>,<n>,<v0> | deleten <m> <k0>,<step>,<n>     (bulk forms: n single calls, one observation)
 //	set <m> <k> <v> | delete <m> <k> | clear <m> | get|getok <m> <k> | len|keys|string <m>
 //	first|last <i> <m> | seek <i> <m> <k> | itseek <i> <k> | itnext|itprev|itread <i>
 //	  -> r=<result>;len=;keys=;str=;its=<i:valid:key:value of the iterators on this map>;all=<m:Len:Get(k) through every register>
 
-type c04it struct {
-	it    *omap.Iter[int, int]
-	m     omap.Map[int, int]
+// The runner is generic over the KEY type K: the op lines carry integer key TOKENS, `enc` maps a token to the key
+// the real Map is called with and `dec` maps a key seen in an observation back to its token.  For the int modes both
+// are the identity.  Mode `flt` runs the same lines against omap.Map[float64,int] built with omap.New (the DEFAULT
+// comparison, cmp.Compare) under an order isomorphism between the tokens c04fltLo..c04fltHi and float64 keys in
+// cmp.Compare order that includes the special values (see c04fltEnc) — so the model side needs nothing new: the
+// driver treats `flt` like `nat`.
+type c04it[K cmp.Ordered] struct {
+	it    *omap.Iter[K, int]
+	m     omap.Map[K, int]
 	id    int
 	stale bool
 }
 
-type c04 struct {
+type c04r[K cmp.Ordered] struct {
 	mode string
-	maps map[int]omap.Map[int, int]
+	mk   func() omap.Map[K, int] // the constructor of the mode
+	enc  func(tok int) K
+	dec  func(k K) int
+	str  func(s string) string // Map.String() with the keys mapped back to tokens
+	tcmp func(a, b int) int    // the order of the mode on tokens (for the branch notes only)
+	maps map[int]omap.Map[K, int]
 	ids  map[int]int
 	zero map[int]bool // by id
-	its  map[int]*c04it
+	its  map[int]*c04it[K]
 	next int
 	st   *Stats
 	lg   lgTrack
+}
+
+// c04 dispatches on the mode of the reset line to a runner at the key type of the mode.
+type c04 struct {
+	st  *Stats
+	cur Runner
 }
 
 func c04cmp(mode string) func(a, b int) int {
@@ -50,11 +70,122 @@ func c04cmp(mode string) func(a, b int) int {
 	return c03cmpNat
 }
 
-func c04iter(it *omap.Iter[int, int]) string {
-	return fmt.Sprintf("%s:%d:%d", fmtBool(it.IsValid()), it.Key(), it.Value())
+// The float keys of mode `flt`.  Token ↦ key is strictly increasing w.r.t. cmp.Compare on float64:
+//
+//	c04fltLo ↦ NaN (cmp.Compare: below everything, equal to itself), c04fltLo+1 ↦ -Inf, c04fltLo+2 ↦ -MaxFloat64,
+//	t ↦ t/4 (exact; -1 ↦ -0.25, 1 ↦ 0.25), 0 ↦ +0.0 or -0.0 alternately (cmp.Compare: equal),
+//	c04fltHi-1 ↦ MaxFloat64, c04fltHi ↦ +Inf.
+//
+// The generator keeps every key token of a `flt` case inside [c04fltLo, c04fltHi].
+const (
+	c04fltLo = -1000
+	c04fltHi = 1000000
+)
+
+func c04fltEnc() func(int) float64 {
+	calls := 0
+	return func(t int) float64 {
+		switch {
+		case t <= c04fltLo:
+			return math.NaN()
+		case t == c04fltLo+1:
+			return math.Inf(-1)
+		case t == c04fltLo+2:
+			return -math.MaxFloat64
+		case t == c04fltHi-1:
+			return math.MaxFloat64
+		case t >= c04fltHi:
+			return math.Inf(1)
+		case t == 0:
+			calls++
+			if calls%2 == 0 {
+				return math.Copysign(0, -1)
+			}
+			return 0
+		}
+		return float64(t) / 4
+	}
 }
 
-func (r *c04) obs(res string, m omap.Map[int, int], id, k int) string {
+func c04fltDec(f float64) int {
+	switch {
+	case f != f:
+		return c04fltLo
+	case math.IsInf(f, -1):
+		return c04fltLo + 1
+	case f == -math.MaxFloat64:
+		return c04fltLo + 2
+	case f == math.MaxFloat64:
+		return c04fltHi - 1
+	case math.IsInf(f, 1):
+		return c04fltHi
+	}
+	return int(f * 4)
+}
+
+// c04fltStr rewrites the keys of `omap[k:v k:v]` (as Map.String prints float keys: NaN, -Inf, +Inf, -0, 0.25, 1e+308)
+// to tokens.
+func c04fltStr(s string) string {
+	body, ok := strings.CutPrefix(s, "omap[")
+	if !ok || !strings.HasSuffix(body, "]") {
+		return "unparsed:" + s
+	}
+	body = strings.TrimSuffix(body, "]")
+	if body == "" {
+		return s
+	}
+	fs := strings.Split(body, " ")
+	for i, f := range fs {
+		k, v, ok := strings.Cut(f, ":")
+		x, err := strconv.ParseFloat(k, 64)
+		if !ok || err != nil {
+			return "unparsed:" + s
+		}
+		fs[i] = strconv.Itoa(c04fltDec(x)) + ":" + v
+	}
+	return "omap[" + strings.Join(fs, " ") + "]"
+}
+
+func c04ident(k int) int { return k }
+
+func c04new(mode string, st *Stats) Runner {
+	if mode == "flt" {
+		return &c04r[float64]{mode: mode, st: st, mk: omap.New[float64, int], enc: c04fltEnc(), dec: c04fltDec,
+			str: c04fltStr, tcmp: c03cmpNat}
+	}
+	r := &c04r[int]{mode: mode, st: st, mk: omap.New[int, int], enc: c04ident, dec: c04ident,
+		str: func(s string) string { return s }, tcmp: c04cmp(mode)}
+	if mode != "nat" {
+		r.mk = func() omap.Map[int, int] { return omap.NewFunc[int, int](c04cmp(mode)) }
+	}
+	return r
+}
+
+func (r *c04) Exec(op []string) string {
+	if op[0] == "reset" || r.cur == nil {
+		mode := "nat"
+		if op[0] == "reset" && len(op) > 1 {
+			mode = op[1]
+		}
+		r.cur = c04new(mode, r.st)
+	}
+	return r.cur.Exec(op)
+}
+
+func (r *c04r[K]) iter(it *omap.Iter[K, int]) string {
+	return fmt.Sprintf("%s:%d:%d", fmtBool(it.IsValid()), r.dec(it.Key()), it.Value())
+}
+
+func (r *c04r[K]) keys(m omap.Map[K, int]) string {
+	ks := m.Keys()
+	out := make([]int, len(ks))
+	for i, k := range ks {
+		out[i] = r.dec(k)
+	}
+	return fmtInts(out)
+}
+
+func (r *c04r[K]) obs(res string, m omap.Map[K, int], id, k int) string {
 	var is []int
 	for i, it := range r.its {
 		if it.id == id {
@@ -67,7 +198,7 @@ func (r *c04) obs(res string, m omap.Map[int, int], id, k int) string {
 		if r.its[i].stale {
 			its = append(its, fmt.Sprintf("%d:stale", i))
 		} else {
-			its = append(its, fmt.Sprintf("%d:%s", i, c04iter(r.its[i].it)))
+			its = append(its, fmt.Sprintf("%d:%s", i, r.iter(r.its[i].it)))
 		}
 	}
 	var regs []int
@@ -77,15 +208,15 @@ func (r *c04) obs(res string, m omap.Map[int, int], id, k int) string {
 	sort.Ints(regs)
 	var all []string
 	for _, reg := range regs {
-		all = append(all, fmt.Sprintf("%d:%d:%d", reg, r.maps[reg].Len(), r.maps[reg].Get(k)))
+		all = append(all, fmt.Sprintf("%d:%d:%d", reg, r.maps[reg].Len(), r.maps[reg].Get(r.enc(k))))
 	}
 	r.lg.see(r.st, "omap", m.Len())
-	return fmt.Sprintf("r=%s;len=%d;keys=%s;str=%s;its=%s;all=%s", res, m.Len(), fmtInts(m.Keys()), m.String(),
+	return fmt.Sprintf("r=%s;len=%d;keys=%s;str=%s;its=%s;all=%s", res, m.Len(), r.keys(m), r.str(m.String()),
 		strings.Join(its, " "), strings.Join(all, " "))
 }
 
 // noteSize records the operations that act on a map of 20 or more / 100 or more entries.
-func (r *c04) noteSize(op string, n int) {
+func (r *c04r[K]) noteSize(op string, n int) {
 	switch op {
 	case "seek", "first", "last", "delete", "itnext", "itprev", "set":
 		if n >= 100 {
@@ -96,7 +227,22 @@ func (r *c04) noteSize(op string, n int) {
 	}
 }
 
-func (r *c04) staleAll(id int) {
+// noteKey records, in mode flt, that a special float value was used as a key.
+func (r *c04r[K]) noteKey(op string, k int) {
+	if r.mode != "flt" {
+		return
+	}
+	switch k {
+	case c04fltLo:
+		r.st.Note("flt:NaN:" + op)
+	case c04fltLo + 1, c04fltHi:
+		r.st.Note("flt:Inf:" + op)
+	case 0:
+		r.st.Note("flt:zero:" + op)
+	}
+}
+
+func (r *c04r[K]) staleAll(id int) {
 	for _, it := range r.its {
 		if it.id == id {
 			it.stale = true
@@ -104,34 +250,30 @@ func (r *c04) staleAll(id int) {
 	}
 }
 
-func (r *c04) Exec(op []string) string {
+func (r *c04r[K]) Exec(op []string) string {
 	switch op[0] {
 	case "reset":
-		r.mode = "nat"
-		if len(op) > 1 {
-			r.mode = op[1]
-		}
-		r.maps = map[int]omap.Map[int, int]{}
+		r.maps = map[int]omap.Map[K, int]{}
 		r.ids = map[int]int{}
 		r.zero = map[int]bool{}
-		r.its = map[int]*c04it{}
+		r.its = map[int]*c04it[K]{}
 		r.next = 0
 		r.lg.reset()
+		if r.mode == "flt" {
+			r.st.Note("flt")
+		}
 		return "-"
 	case "mk":
 		reg := atoi(op[1])
 		id := r.next
 		r.next++
-		switch {
-		case op[2] == "zero":
-			var z omap.Map[int, int]
+		if op[2] == "zero" {
+			var z omap.Map[K, int]
 			r.maps[reg] = z
 			r.zero[id] = true
 			r.st.Note("zero-map")
-		case r.mode == "nat":
-			r.maps[reg] = omap.New[int, int]()
-		default:
-			r.maps[reg] = omap.NewFunc[int, int](c04cmp(r.mode))
+		} else {
+			r.maps[reg] = r.mk()
 		}
 		r.ids[reg] = id
 		return r.obs(fmt.Sprint(r.maps[reg].Len()), r.maps[reg], id, 0)
@@ -159,9 +301,10 @@ func (r *c04) Exec(op []string) string {
 			if it.stale {
 				r.st.Note("re-seek-after-edit")
 			}
-			it.it.Seek(k)
+			r.noteKey(op[0], k)
+			it.it.Seek(r.enc(k))
 			it.stale = false
-			res = c04iter(it.it)
+			res = r.iter(it.it)
 		case "itnext", "itprev":
 			if it.stale {
 				res = "stale"
@@ -179,12 +322,12 @@ func (r *c04) Exec(op []string) string {
 			} else if !was {
 				r.st.Note(op[0] + "-on-invalid")
 			}
-			res = c04iter(it.it)
+			res = r.iter(it.it)
 		case "itread":
 			if it.stale {
 				res = "stale"
 			} else {
-				res = c04iter(it.it)
+				res = r.iter(it.it)
 			}
 		}
 		return r.obs(res, it.m, it.id, k)
@@ -226,8 +369,9 @@ func (r *c04) Exec(op []string) string {
 	switch op[0] {
 	case "set":
 		k, v := atoi(op[2]), atoi(op[3])
-		_, had := m.GetOK(k)
-		isNew := m.Set(k, v) // panics on the zero Map
+		r.noteKey(op[0], k)
+		_, had := m.GetOK(r.enc(k))
+		isNew := m.Set(r.enc(k), v) // panics on the zero Map
 		if had {
 			r.st.Note("set-existing")
 		}
@@ -239,7 +383,7 @@ func (r *c04) Exec(op []string) string {
 		k0, d, n, v0 := bulk[0], bulk[1], bulk[2], bulk[3]
 		var sb strings.Builder
 		for i := 0; i < n; i++ {
-			sb.WriteString(fmtBool(m.Set(k0+i*d, v0+i))) // panics on the zero Map
+			sb.WriteString(fmtBool(m.Set(r.enc(k0+i*d), v0+i))) // panics on the zero Map
 			r.lg.see(r.st, "omap", m.Len())
 		}
 		r.staleAll(id)
@@ -250,7 +394,7 @@ func (r *c04) Exec(op []string) string {
 		var sb strings.Builder
 		any := false
 		for i := 0; i < n; i++ {
-			was := m.Delete(k0 + i*d)
+			was := m.Delete(r.enc(k0 + i*d))
 			any = any || was
 			sb.WriteString(fmtBool(was))
 			r.lg.see(r.st, "omap", m.Len())
@@ -261,7 +405,8 @@ func (r *c04) Exec(op []string) string {
 		return r.obs(sb.String(), m, id, 0)
 	case "delete":
 		k := atoi(op[2])
-		was := m.Delete(k)
+		r.noteKey(op[0], k)
+		was := m.Delete(r.enc(k))
 		if was {
 			r.staleAll(id)
 		}
@@ -274,21 +419,23 @@ func (r *c04) Exec(op []string) string {
 		return r.obs("-", m, id, 0)
 	case "get":
 		k := atoi(op[2])
-		return r.obs(fmt.Sprint(m.Get(k)), m, id, k)
+		r.noteKey(op[0], k)
+		return r.obs(fmt.Sprint(m.Get(r.enc(k))), m, id, k)
 	case "getok":
 		k := atoi(op[2])
-		v, ok := m.GetOK(k)
+		r.noteKey(op[0], k)
+		v, ok := m.GetOK(r.enc(k))
 		return r.obs(fmtPop(v, ok), m, id, k)
 	case "len":
 		return r.obs(fmt.Sprint(m.Len()), m, id, 0)
 	case "keys":
-		return r.obs(fmtInts(m.Keys()), m, id, 0)
+		return r.obs(r.keys(m), m, id, 0)
 	case "string":
-		return r.obs(m.String(), m, id, 0)
+		return r.obs(r.str(m.String()), m, id, 0)
 	case "first", "last", "seek":
 		i := atoi(op[1])
 		k := 0
-		var it *omap.Iter[int, int]
+		var it *omap.Iter[K, int]
 		switch op[0] {
 		case "first":
 			it = m.First()
@@ -296,24 +443,25 @@ func (r *c04) Exec(op []string) string {
 			it = m.Last()
 		default:
 			k = atoi(op[3])
-			it = m.Seek(k)
+			r.noteKey(op[0], k)
+			it = m.Seek(r.enc(k))
 			big := ""
 			if m.Len() >= 20 {
 				big = "len>=20:"
 			}
 			if !it.IsValid() {
 				r.st.Note(big + "seek-past-the-end")
-			} else if c04cmp(r.mode)(it.Key(), k) != 0 {
+			} else if r.tcmp(r.dec(it.Key()), k) != 0 {
 				r.st.Note(big + "seek-absent-key")
-				if f := m.First(); f.Key() == it.Key() {
+				if f := m.First(); r.dec(f.Key()) == r.dec(it.Key()) {
 					r.st.Note(big + "seek-below-min")
 				}
 			} else {
 				r.st.Note(big + "seek-present-key")
 			}
 		}
-		r.its[i] = &c04it{it: it, m: m, id: id}
-		return r.obs(c04iter(it), m, id, k)
+		r.its[i] = &c04it[K]{it: it, m: m, id: id}
+		return r.obs(r.iter(it), m, id, k)
 	}
 	return "bad-op"
 }
@@ -337,6 +485,18 @@ type c04gen struct {
 
 func (x *c04gen) emit(f string, a ...any) { x.ops = append(x.ops, fmt.Sprintf(f, a...)) }
 
+// ck keeps a key token of a `flt` case inside the range that is mapped to float keys (neighbours key±1 of the
+// extreme tokens would fall outside).
+func (x *c04gen) ck(k int) int {
+	if x.mode == "flt" {
+		return min(max(k, c04fltLo), c04fltHi)
+	}
+	return k
+}
+
+// c04fltSpecial are the tokens of the special float keys: NaN, -Inf, -MaxFloat64, ±0, MaxFloat64, +Inf.
+var c04fltSpecial = []int{c04fltLo, c04fltLo, c04fltLo, c04fltLo + 1, c04fltLo + 1, c04fltLo + 2, 0, 0, c04fltHi - 1, c04fltHi, c04fltHi}
+
 func (x *c04gen) find(id, k int) (int, bool) {
 	ks := x.keys[id]
 	i := sort.Search(len(ks), func(i int) bool { return x.cmp(ks[i], k) >= 0 })
@@ -352,6 +512,7 @@ func (x *c04gen) edited(id int) {
 }
 
 func (x *c04gen) set(reg, k int) {
+	k = x.ck(k)
 	id := x.ids[reg]
 	if x.zero[id] && x.g.Chance(4, 5) {
 		return // Set on the zero Map panics; once in a while is enough
@@ -374,6 +535,7 @@ func (x *c04gen) set(reg, k int) {
 }
 
 func (x *c04gen) del(reg, k int) {
+	k = x.ck(k)
 	x.emit("delete %d %d", reg, k)
 	id := x.ids[reg]
 	if i, ok := x.find(id, k); ok {
@@ -386,6 +548,10 @@ func (x *c04gen) del(reg, k int) {
 func (x *c04gen) key(reg int) int {
 	g := x.g
 	ks := x.keys[x.ids[reg]]
+	if x.mode == "flt" && g.Chance(3, 10) {
+		// a special float value: as a new key, as a stored key, as a Seek target
+		return c04fltSpecial[g.Intn(len(c04fltSpecial))]
+	}
 	switch c := g.Intn(10); {
 	case c < 5 && len(ks) > 0:
 		k := ks[g.Intn(len(ks))]
@@ -545,7 +711,7 @@ func genC04Large(g *G) {
 	for ci, c := range cs {
 		N := c.n
 		x := &c04gen{g: g, keys: map[int][]int{}, zero: map[int]bool{}, ids: map[int]int{}, its: map[int]int{}, old: map[int]bool{}}
-		x.mode = []string{"nat", "rev", "nat", "div10"}[(ci+off)%4]
+		x.mode = []string{"nat", "rev", "flt", "div10"}[(ci+off)%4]
 		x.cmp = c04cmp(x.mode)
 		step := 1
 		if x.mode == "div10" {
@@ -613,12 +779,12 @@ func genC04Large(g *G) {
 				at = at[:2] // every line prints the whole map
 			}
 			for _, i := range at {
-				x.emit("seek 2 0 %d", ks[i]-1)
+				x.emit("seek 2 0 %d", x.ck(ks[i]-1))
 				x.emit("seek 2 0 %d", ks[i])
 				x.emit("itnext 2")
 				x.emit("itprev 2")
 				x.emit("itprev 2")
-				x.emit("getok 0 %d", ks[i]+1)
+				x.emit("getok 0 %d", x.ck(ks[i]+1))
 				x.emit("get 0 %d", ks[i])
 			}
 			x.its[0], x.its[1], x.its[2] = x.ids[0], x.ids[0], x.ids[0]
@@ -634,6 +800,22 @@ func genC04Large(g *G) {
 		}
 		plan := c04plan(g, N+8, step, (ci+off)%orders)
 		grow(plan, 0, N, 12)
+		if x.mode == "flt" {
+			// the special float keys join the large map (NaN first or last), are looked up, one is deleted again; the
+			// rest stays for the drains and regrowths below
+			sp := []int{c04fltLo, c04fltHi, c04fltLo + 1, 0, c04fltHi - 1, c04fltLo + 2, 0}
+			if g.Chance(1, 2) {
+				sp[0], sp[1] = sp[1], sp[0]
+			}
+			for _, k := range sp {
+				x.emit("getok 0 %d", k)
+				x.set(0, k)
+				x.emit("seek 2 0 %d", k)
+				x.emit("itprev 2")
+			}
+			x.del(0, sp[2])
+			x.emit("seek 2 0 %d", sp[2])
+		}
 		look()
 		x.emit("copy 1 0")
 		x.ids[1] = x.ids[0]
@@ -681,6 +863,9 @@ func genC04(g *G) {
 	for c := 0; c < cases; c++ {
 		x := &c04gen{g: g, keys: map[int][]int{}, zero: map[int]bool{}, ids: map[int]int{}, its: map[int]int{}, old: map[int]bool{}}
 		x.mode = g.Pick("nat", "nat", "rev", "div10")
+		if c%4 == 1 {
+			x.mode = "flt" // a fixed quarter of the cases of every run
+		}
 		x.cmp = c04cmp(x.mode)
 		x.span = 6 + g.Intn(g.Scale(60, 300))
 		if x.mode == "div10" {
@@ -786,7 +971,7 @@ func genC04(g *G) {
 					x.edited(id)
 				}
 			case k < 47:
-				x.emit("%s %d %d", g.Pick("get", "getok"), reg, x.key(reg))
+				x.emit("%s %d %d", g.Pick("get", "getok"), reg, x.ck(x.key(reg)))
 			case k < 49:
 				x.emit("%s %d", g.Pick("len", "keys", "string"), reg)
 			case k < 55:
@@ -795,11 +980,11 @@ func genC04(g *G) {
 				x.its[i], x.old[i] = x.ids[reg], false
 			case k < 63:
 				i := g.Intn(4)
-				x.emit("seek %d %d %d", i, reg, x.key(reg))
+				x.emit("seek %d %d %d", i, reg, x.ck(x.key(reg)))
 				x.its[i], x.old[i] = x.ids[reg], false
 			case k < 68:
 				if i, ok := x.iter(); ok {
-					x.emit("itseek %d %d", i, x.key(reg))
+					x.emit("itseek %d %d", i, x.ck(x.key(reg)))
 					x.old[i] = false
 				}
 			case k < 86:
@@ -867,15 +1052,15 @@ func genC04(g *G) {
 			ks = pick
 		}
 		for _, key := range ks {
-			x.emit("seek 0 %d %d", reg, key-1)
+			x.emit("seek 0 %d %d", reg, x.ck(key-1))
 			x.emit("seek 0 %d %d", reg, key)
 			x.emit("itprev 0")
-			x.emit("seek 0 %d %d", reg, key+1)
+			x.emit("seek 0 %d %d", reg, x.ck(key+1))
 		}
 		g.Case(x.ops)
 	}
 }
 
 func init() {
-	register(&Stream{Name: "C04", Gen: genC04, New: func(st *Stats) Runner { return &c04{st: st, mode: "nat"} }})
+	register(&Stream{Name: "C04", Gen: genC04, New: func(st *Stats) Runner { return &c04{st: st} }})
 }
